@@ -130,6 +130,12 @@ def gen_cases(tier, seed):
         if i % 3 == 0:
             szs.insert(rng.randrange(len(szs)), rng.choice([4 * MB, 4 * MB + 1, 5 * MB]))
         cases.append({"kind": "multi", "sizes": szs, "content": rng.choice(KINDS), "cseed": rng.randrange(1 << 30), "opts": row})
+    ns = {"quick": 12, "search": 30, "thorough": 150}[tier]
+    for i in range(ns):
+        cases.append({"kind": "sparse", "sseed": rng.randrange(1 << 40), "count": 12})
+    for i in range({"quick": 2, "search": 4, "thorough": 12}[tier]):
+        cases.append({"kind": "sparse", "sseed": rng.randrange(1 << 40), "count": 3, "big": True})
+    cases.append({"kind": "setbs", "sseed": rng.randrange(1 << 40), "count": {"quick": 200, "search": 500, "thorough": 3000}[tier]})
     return cases
 
 # ------------------------------------------------------------------ worker
@@ -254,6 +260,15 @@ def e2e(st, case, wd, res):
                  dict(det, variant=label))
             return
     F = ref
+    o2 = alias_of(st, o, random.Random(case["cseed"]))
+    if o2 is not None:
+        rc, F2, err = compress(exe, o2, o["io"], src, os.path.join(wd, "out.lz4"), data, dictf, variants(comp, False)[0][1], None)
+        res["evals"] += 1
+        res["stats"]["alias_runs"] += 1
+        if rc != 0 or F2 != F:
+            fail(res, "corr_fail", "option map: model says [%s] and [%s] are the same options, the real outputs differ (rc=%s)" %
+                 (" ".join(opt_args(o)), " ".join(opt_args(o2)), rc), det)
+            return
     cf = os.path.join(wd, "c.lz4")
     wr(cf, F)
     # decode with both builds
@@ -298,8 +313,52 @@ def e2e(st, case, wd, res):
     if o.get("dict"):
         res["stats"]["dict"] += 1
 
+def rle(blocks):
+    out = []
+    for b in blocks:
+        if out and out[-1][0] == b:
+            out[-1][1] += 1
+        else:
+            out.append([b, 1])
+    return ",".join("%dx%d" % (a, b) for a, b in out) if out else "-"
+
 def layout_check(st, case, F, data, dictb, res, det):
-    pass
+    """(c) the model's decomposition predicts the structure of the real output"""
+    o = case["opts"]
+    n = len(data)
+    fsz = 0 if o["io"] == "pipe" else n
+    args = opt_args(o) + (["-D"] if o.get("dict") else [])
+    want = cli_oracle(st).ask("layout", o["comp"], str(fsz), str(n), *args)
+    res["evals"] += 1
+    if o.get("legacy"):
+        d = clilib.parse_legacy(st["lib"], F)
+        got = None if d is None or d["end"] != len(F) else "legacy blocks=" + rle(d["blocks"])
+    else:
+        d = clilib.parse_frame(st["lib"], F, data, dictb)
+        got = None
+        if d is not None and d["end"] == len(F):
+            if not d["crc_ok"]:
+                fail(res, "prop_fail", "a checksum of the produced frame does not verify (%s)" % d["crc_what"], det); return
+            got = "indep=%d bcrc=%d csize=%s ccrc=%d bsid=%d blocks=%s" % (d["indep"], d["bcrc"], "-" if d["csize"] is None else d["csize"], d["ccrc"], d["bsid"], rle(d["blocks"]))
+    if got is None:
+        fail(res, "prop_fail", "the output of lz4 is not a single well-formed frame", det); return
+    if got != want:
+        fail(res, "corr_fail", "layout of the real %s output differs from the model: code [%s] model [%s]" % (o["comp"], got[:300], want[:300]), det); return
+    res["stats"]["layout_" + ("legacy" if o.get("legacy") else "shortcut" if n < (4 * MB if o["comp"] == "mt" else 1) else "multi")] += 1
+
+ALIASES = {"level": {"--best": "-12", "--fast": "--fast=1", None: "-1", "-12": "--best", "-1": None},
+           "bs": {"-B4194304": "-B7", None: "-B7", "-B7": "-B4194304"},
+           "mode": {"-BI": None, None: "-BI"}}
+def alias_of(st, o, rng):
+    """another spelling of the same options according to the model's option map (same parsed state)"""
+    dims = [k for k in ALIASES if o.get(k) in ALIASES[k]]
+    if not dims:
+        return None
+    k = rng.choice(dims)
+    o2 = dict(o); o2[k] = ALIASES[k][o.get(k)]
+    a1 = cli_oracle(st).ask("state", *(opt_args(o) or ["-BI"]))
+    a2 = cli_oracle(st).ask("state", *(opt_args(o2) or ["-BI"]))
+    return o2 if a1 == a2 and a1 != "badusage" else None
 
 def multi(st, case, wd, res):
     o = case["opts"]
@@ -576,7 +635,41 @@ def sparse_case(st, case, wd, res):
         sparse_one(st, rng, wd, res, big=case.get("big", False))
 
 def setbs_case(st, case, wd, res):
-    pass
+    """(b) LZ4IO_setBlockSize / LZ4IO_setBlockSizeID: real static-table code vs model, plus the property itself"""
+    rng = random.Random(case["sseed"])
+    cli = cli_oracle(st)
+    sizes = set(range(0, 70)) | {1 << 64 - 1, (1 << 64) - 1, (1 << 32) - 1, 1 << 32, (1 << 32) + 1}
+    for k in range(5, 25):
+        sizes |= {(1 << k) - 1, 1 << k, (1 << k) + 1}
+    for _ in range(case["count"]):
+        sizes.add(rng.choice([rng.randrange(32, 70000), rng.randrange(32, 5 * MB), rng.randrange(0, 1 << 40)]))
+    sizes = sorted(x for x in sizes if 0 <= x < (1 << 64))
+    rc, out, err = run([st["ctx"]["drv"], "setbs"] + [str(x) for x in sizes], pipe_out=True)
+    lines = out.decode().strip().split("\n") if out else []
+    if rc != 0 or len(lines) != len(sizes):
+        fail(res, "harness_error", "cli_drv setbs failed rc=%s" % rc, {"stderr": err[-300:]}); return
+    table = {4: 64 * KB, 5: 256 * KB, 6: MB, 7: 4 * MB}
+    for x, ln in zip(sizes, lines):
+        n, ret, bs, bid = [int(t) for t in ln.split()]
+        m = cli.ask("setbs", str(x))
+        res["evals"] += 1
+        if m != "%d %d %d" % (ret, bs, bid):
+            fail(res, "corr_fail", "LZ4IO_setBlockSize(%d): code (ret, blockSize, id) = (%d, %d, %d), model %s" % (x, ret, bs, bid, m), {"size": x}); return
+        want = min(max(x, 32), 4 * MB)
+        if not (ret == bs == want and 4 <= bid <= 7 and table[bid] >= bs and (bid == 4 or table[bid - 1] < bs)):
+            fail(res, "prop_fail", "LZ4IO_setBlockSize(%d) stores blockSize %d with block size ID %d (not the smallest standard size holding it)" % (x, bs, bid), {"size": x}); return
+        res["keys"].add("bs%d" % x)
+        res["stats"]["setbs_id%d" % bid] += 1
+    ids = list(range(0, 12)) + [255, 1 << 31]
+    rc, out, err = run([st["ctx"]["drv"], "setbsid"] + [str(x) for x in ids], pipe_out=True)
+    for x, ln in zip(ids, out.decode().strip().split("\n")):
+        _, ret, bs, bid = [int(t) for t in ln.split()]
+        m = cli.ask("setbsid", str(x))
+        res["evals"] += 1
+        if m != "%d %d %d" % (ret, bs, bid):
+            fail(res, "corr_fail", "LZ4IO_setBlockSizeID(%d): code (%d, %d, %d), model %s" % (x, ret, bs, bid, m), {"id": x}); return
+        if 4 <= x <= 7 and not (ret == bs == table[x] and bid == x):
+            fail(res, "prop_fail", "-B%d does not select the documented block size" % x, {"id": x}); return
 
 def run_case(st, case):
     res = {"evals": 0, "fails": [], "keys": set(), "stats": collections.Counter()}
